@@ -417,7 +417,7 @@ impl PrettyPrint for TypeExpression {
             TypeExpression::Power(_, lhs, _, exp) => {
                 with_parens(lhs)
                     + m::operator("^")
-                    + if exp.is_positive() {
+                    + if exp.is_positive() && exp.is_integer() {
                         m::value(format_compact!("{exp}"))
                     } else {
                         m::operator("(") + m::value(format_compact!("{exp}")) + m::operator(")")
